@@ -494,6 +494,30 @@ def coverage_of_helpers(sess):
             raise EngineError(f'EBBMotionWrap.{m} has no template row in contracts/c06.py')
 
 
+
+def check_defaults(sess):
+    """an omitted optional argument is the call with the parameter's default: every optional parameter of the helpers (other than the
+    legacy `verbose` flag) must default to None -- the shape that the template obligations cover as "argument omitted"."""
+    import ast
+    from pyvc import front
+    bad = []
+    n = 0
+    for mod, pick in (('plotink.ebb_motion', lambda q: '.' not in q), ('plotink.ebb3_motion', lambda q: q.startswith('EBBMotionWrap.')),
+                      ('plotink.ebb3_serial', lambda q: q.startswith('EBB3.'))):
+        mi = front.load(mod)
+        for qual, fn in mi.funcs.items():
+            if not pick(qual) or qual.split('.')[-1].startswith('_'):
+                continue
+            names = [a.arg for a in fn.args.args]
+            for a, d in zip(names[len(names) - len(fn.args.defaults):], fn.args.defaults):
+                if a == 'verbose':
+                    continue
+                n += 1
+                if not (isinstance(d, ast.Constant) and d.value is None):
+                    bad.append(f'{mod}.{qual}({a}={ast.unparse(d)})')
+    sess.add('helpers/optional-parameters-default-to-None', 'plotink.ebb_motion / ebb3_motion / ebb3_serial', 'ensures', [],
+             z3.BoolVal(not bad and n > 0), replay=(lambda model, ob: {'confirmed': False, 'summary': 'defaults: ' + ', '.join(bad)}))
+
 def build(sess):
     sess.level = 'proof'
     sess.trust(
@@ -505,6 +529,7 @@ def build(sess):
         'arguments are Python ints (None for omitted optional ones); device acknowledges every command',
     )
     coverage_of_helpers(sess)
+    check_defaults(sess)
     # the helpers are verified against the CALL-SITE contracts of EBB3.command and ebb_serial.command; those contracts are re-proved of
     # the real bodies here (same obligations as C05 / C07), so that a change inside command() that re-sends or rewrites a request
     # fails this property's check too
